@@ -307,66 +307,129 @@ func c04R3(c *Ctx) {
 		c.LostAnchor(R, "~.CopyGraphOptions.Concurrency")
 		return
 	}
-	n := 0
+	// positive(F, x-values): program points / edges after which a value in vals is known to be >= 1
+	positiveCut := func(F *ssa.Function, vals map[ssa.Value]bool, stores []*ssa.Store) *cut {
+		positive := newCut()
+		for _, i := range Ifs(F) {
+			cond, t, f := ifEdges(i)
+			bo, ok := cond.(*ssa.BinOp)
+			if !ok || !vals[bo.X] {
+				continue
+			}
+			k, ok := constInt(bo.Y)
+			if !ok {
+				continue
+			}
+			switch {
+			case bo.Op == token.LEQ && k == 0, bo.Op == token.LSS && k == 1:
+				positive.Edges(f)
+			case bo.Op == token.GTR && k == 0, bo.Op == token.GEQ && k == 1:
+				positive.Edges(t)
+			}
+		}
+		for _, s := range stores {
+			if k, ok := constInt(s.Val); ok && k >= 1 {
+				positive.Instr(s)
+			}
+		}
+		return positive
+	}
+	// a limiter helper: returns the semaphore it creates, sized by one of its parameters (newCopyLimiter(concurrency))
+	helperParam := func(h *ssa.Function) (int, ssa.CallInstruction) {
+		if h.Parent() != nil || h.Signature.Results().Len() != 1 || !strings.HasSuffix(h.Signature.Results().At(0).Type().String(), "semaphore.Weighted") {
+			return -1, nil
+		}
+		sems := CallsTo(h, nNewSem)
+		if len(sems) != 1 {
+			return -1, nil
+		}
+		for i, prm := range h.Params {
+			if c01Slice(sems[0].Common().Args[0], func(x ssa.Value) bool { return x == ssa.Value(prm) }) {
+				return i, sems[0]
+			}
+		}
+		return -1, nil
+	}
+	type creation struct {
+		F     *ssa.Function       // where the limiter comes into being for a copy call
+		call  ssa.CallInstruction // NewWeighted, or the call of the limiter helper
+		size  ssa.Value           // the size expression in F
+		inner ssa.CallInstruction // NewWeighted inside the helper (nil when direct)
+		h     *ssa.Function
+		hp    int
+	}
+	var points []creation
 	for _, F := range c.P.FuncsOfPkg("") {
+		if hp, _ := helperParam(F); hp >= 0 {
+			continue // its call sites are the creation points
+		}
 		for _, call := range CallsTo(F, nNewSem) {
-			n++
-			key := c01ClosureKey(F, "closure") + "|limiter-created-once-sized-by-Concurrency"
-			why := ""
-			if F.Parent() != nil {
-				why = "the semaphore is created inside a closure (per node / per root) instead of once per copy call"
-			}
-			if Reachable(call.(ssa.Instruction), call.(ssa.Instruction)) {
-				why = "the semaphore is created inside a loop"
-			}
-			if !c01Slice(call.Common().Args[0], func(x ssa.Value) bool { return c01IsFieldValue(x, conc) }) {
-				why = "the semaphore's size does not derive from opts.Concurrency"
-			}
-			// defaulting: a positive test edge or a store of a positive constant precedes
-			loads := c04FieldValues(F, conc)
-			positive := newCut()
-			for _, i := range Ifs(F) {
-				cond, t, f := ifEdges(i)
-				bo, ok := cond.(*ssa.BinOp)
-				if !ok || !loads[bo.X] {
-					continue
-				}
-				k, ok := constInt(bo.Y)
-				if !ok {
-					continue
-				}
-				switch {
-				case bo.Op == token.LEQ && k == 0, bo.Op == token.LSS && k == 1:
-					positive.Edges(f)
-				case bo.Op == token.GTR && k == 0, bo.Op == token.GEQ && k == 1:
-					positive.Edges(t)
+			points = append(points, creation{F: F, call: call, size: call.Common().Args[0]})
+		}
+		for _, call := range Calls(F, func(string) bool { return true }) {
+			if h := StaticCallee(call); h != nil && inModule(h) && len(h.Blocks) > 0 {
+				if hp, inner := helperParam(h); hp >= 0 && hp < len(call.Common().Args) {
+					points = append(points, creation{F: F, call: call, size: call.Common().Args[hp], inner: inner, h: h, hp: hp})
 				}
 			}
-			for _, s := range c04FieldStores(F, conc) {
-				if k, ok := constInt(s.Val); ok && k >= 1 {
-					positive.Instr(s)
-				}
-			}
-			if why == "" && !MustPass(call.(ssa.Instruction), positive) {
-				why = "a non-positive Concurrency reaches semaphore.NewWeighted without being replaced by the default (a zero-weight semaphore blocks every copy)"
-			}
-			// with a limiter parameter: only when none was handed in
-			for _, p := range F.Params {
-				if strings.HasSuffix(p.Type().String(), "semaphore.Weighted") {
-					nilE, _, _ := NilTests(F, Aliases(p))
-					if why == "" && (len(nilE) == 0 || !MustPass(call.(ssa.Instruction), newCut().Edges(nilE...))) {
-						why = "a limiter handed in by the caller is replaced by a fresh one (the roots of an extended copy would not share the bound)"
-					}
-				}
-			}
-			c.Check(R, key, call.Pos(), why == "", ifelse(why == "", "created once, outside closures and loops, sized by the defaulted opts.Concurrency", why))
 		}
 	}
-	if n == 0 {
-		c.LostAnchor(R, "semaphore.NewWeighted in package ~")
+	for _, pt := range points {
+		F, call := pt.F, pt.call
+		key := c01ClosureKey(F, "closure") + "|limiter-created-once-sized-by-Concurrency"
+		why := ""
+		if F.Parent() != nil {
+			why = "the semaphore is created inside a closure (per node / per root) instead of once per copy call"
+		}
+		if Reachable(call.(ssa.Instruction), call.(ssa.Instruction)) {
+			why = "the semaphore is created inside a loop"
+		}
+		if !c01Slice(pt.size, func(x ssa.Value) bool { return c01IsFieldValue(x, conc) }) {
+			why = "the semaphore's size does not derive from opts.Concurrency"
+		}
+		// defaulting: a positive test edge or a store of a positive constant precedes — in F on the option field,
+		// or inside the helper on its parameter
+		okPos := MustPass(call.(ssa.Instruction), positiveCut(F, c04FieldValues(F, conc), c04FieldStores(F, conc)))
+		if !okPos && pt.h != nil {
+			prm := pt.h.Params[pt.hp]
+			pc := positiveCut(pt.h, Aliases(prm), nil)
+			okPos = true
+			for _, alt := range c03Alternatives(strip(pt.inner.Common().Args[0])) {
+				v := strip(alt.Val)
+				if k, isK := constInt(v); isK && k >= 1 {
+					continue
+				}
+				guarded := MustPass(pt.inner.(ssa.Instruction), pc)
+				for _, e := range alt.Edges {
+					if c01MustPassEdge(e, pc) {
+						guarded = true
+					}
+				}
+				if !guarded {
+					okPos = false
+				}
+			}
+		}
+		if why == "" && !okPos {
+			why = "a non-positive Concurrency reaches semaphore.NewWeighted without being replaced by the default (a zero-weight semaphore blocks every copy)"
+		}
+		// with a limiter parameter: only when none was handed in
+		for _, p := range F.Params {
+			if strings.HasSuffix(p.Type().String(), "semaphore.Weighted") {
+				nilE, _, _ := NilTests(F, Aliases(p))
+				if why == "" && (len(nilE) == 0 || !MustPass(call.(ssa.Instruction), newCut().Edges(nilE...))) {
+					why = "a limiter handed in by the caller is replaced by a fresh one (the roots of an extended copy would not share the bound)"
+				}
+			}
+		}
+		c.Check(R, key, call.Pos(), why == "", ifelse(why == "", "created once, outside closures and loops, sized by the defaulted opts.Concurrency", why))
+	}
+	if len(points) == 0 {
+		c.LostAnchor(R, "creation of the semaphore (semaphore.NewWeighted, directly or through a helper) in package ~")
 	}
 	graphFns := c01GraphCopyFns(c.P)
-	for _, T := range traversalClosures(c.P) {
+	for _, tr := range c01Traversals(c.P) {
+		T := tr.Body
 		key := c01ClosureKey(T, "traverse") + "|dispatch-uses-shared-limiter"
 		ok := len(CallsTo(T, nNewSem)) == 0
 		why := "the traversal creates its own semaphore"
@@ -374,7 +437,7 @@ func c04R3(c *Ctx) {
 		var initial []ssa.Value
 		for g := range graphFns {
 			for _, gc := range CallsTo(g, nGo) {
-				if fn, _ := c01FuncOfValue(gc.Common().Args[2]); fn == T {
+				if fn, _ := c01FuncOfValue(gc.Common().Args[2]); fn == tr.Entry {
 					initial = append(initial, gc.Common().Args[1])
 				}
 			}
@@ -686,7 +749,8 @@ func c04R4(c *Ctx) {
 			ifelse(okClose, "the fetched reader is closed (deferred or explicit) on every path after a successful Fetch", "the fetched reader can stay open after the transfer (a source read stays in flight beyond the permit)"))
 	}
 	// --- traversal: one terminal action per node ---
-	for _, T := range traversalClosures(c.P) {
+	for _, tr := range c01Traversals(c.P) {
+		T := tr.Body
 		var acts []ssa.Instruction
 		acts = append(acts, c04Instrs(sitesOf(T, skippedF))...)
 		acts = append(acts, c04Instrs(isCallTo(copyNode)(T))...)
